@@ -10,6 +10,7 @@ the rotation table, negation, heading deltas, the 2x2 matrices and interval maps
 from __future__ import annotations
 
 import ast
+from fractions import Fraction
 from typing import Any, Dict, List, Optional, Tuple
 
 from .affine import Aff, NonAffine, aff_of
@@ -33,6 +34,14 @@ class GeoUndecided(AnalysisError):
         super().__init__(f'geometry guard: `{text or aff}` is zero for some operands and not '
                          f'for others (case not split)')
         self.aff = aff
+
+
+class GeoResidue(AnalysisError):
+    """`x // k` / `x % k` of a symbolic number: the rule splits on the residue of x modulo k
+    (geom.split_cases) or reports the construct as outside the grammar"""
+    def __init__(self, aff, k: int, text: str = ''):
+        super().__init__(f'geometry expression outside the grammar: `{text}`')
+        self.aff, self.k = aff, k
 
 
 class GeoIndexError(GeoKeyError):
@@ -338,6 +347,17 @@ class GeoInterp:
                         b[1].is_const() and int(b[1].k) != 0:
                     x, y = int(a[1].k), int(b[1].k)
                     return ('N', Aff.const(x % y if isinstance(e.op, ast.Mod) else x // y))
+                if isinstance(e.op, (ast.Mod, ast.FloorDiv)) and b[1].is_const() and \
+                        b[1].k == int(b[1].k) and int(b[1].k) >= 2:
+                    # a symbolic number divided by a constant: decided once every coefficient
+                    # is a multiple of it (k*q + r); otherwise the rule splits on the residue
+                    k_ = int(b[1].k)
+                    if all(c_ % k_ == 0 for c_ in a[1].c.values()) and a[1].k == int(a[1].k):
+                        r_ = int(a[1].k) % k_
+                        if isinstance(e.op, ast.Mod):
+                            return ('N', Aff.const(r_))
+                        return ('N', (a[1] - r_).scale(Fraction(1, k_)))
+                    raise GeoResidue(a[1], k_, s)
             if isinstance(e.op, ast.Mult):
                 return self.mul(a, b)
             if isinstance(e.op, ast.Add):
@@ -919,13 +939,38 @@ class Geometry:
     def AR(self):
         def build():
             out = {}
+            cases = {}
             for o in self.orients:
-                v = self.gi.mul(('O', o), A())
-                if v[0] != 'A':
-                    raise AnalysisError(f'{o} * Area does not yield an Area: {v}')
-                out[o] = v[1]
+                res = split_cases(self.gi, lambda oo, ar: self.gi.mul(oo, ar), [('O', o), A()])
+                general = [(d_, v) for d_, v in res if not getattr(d_, 'sub', {})]
+                if any(v[0] != 'A' for _, v in res):
+                    raise AnalysisError(f'{o} * Area does not yield an Area in every case: '
+                                        f'{[(d_, v[0]) for d_, v in res][:3]}')
+                if general:
+                    out[o] = general[-1][1][1]
+                else:
+                    # every case specialises the bounds (a residue split): the image under the
+                    # rotation matrix stands for the operator; C18.R3 checks each case against it
+                    m = self.mat(o)
+                    box = []
+                    for axis in (0, 1):
+                        cy, cx = m[axis]
+                        names = ('ymin', 'ymax') if cy else ('xmin', 'xmax')
+                        c_ = cy or cx
+                        box.append((Aff.sym(names[0]), Aff.sym(names[1])) if c_ == 1 else
+                                   (-Aff.sym(names[1]), -Aff.sym(names[0])))
+                    out[o] = tuple(box)
+                cases[o] = res
+            self._cache['AR_cases'] = cases
             return out
         return self._memo('AR', build)
+
+    @property
+    def AR_cases(self):
+        """orientation -> [(case description, value)]: every case of the tests `o * area`
+        makes on the bounds of the area (zero tests, residues)"""
+        self.AR
+        return self._cache['AR_cases']
 
     def mat(self, o: str) -> Tuple[Tuple[int, int], Tuple[int, int]]:
         m = self.M[o]
@@ -1256,6 +1301,11 @@ def subst_value(v, sub: Dict[str, Aff]):
     return v
 
 
+class CaseDesc(str):
+    """description of a case of split_cases; `.sub` is the substitution that defines it"""
+    sub: Dict[str, Aff] = {}
+
+
 def split_cases(gi: 'GeoInterp', f, inputs, depth: int = 4):
     """[(case description, f(*inputs'))]: `f` evaluated on the symbolic inputs; whenever the
     interpreted code tests a symbolic number for zero, the evaluation is repeated once under the
@@ -1266,6 +1316,24 @@ def split_cases(gi: 'GeoInterp', f, inputs, depth: int = 4):
         gi.nonzero = set(nonzero)
         try:
             r = f(*[subst_value(v, sub) for v in inputs])
+        except GeoResidue as u:
+            # x = k*q + r for each residue r: one symbol of x is replaced so that this holds
+            a = u.aff
+            s_ = next((s for s, c_ in sorted(a.c.items()) if abs(c_) == 1), None)
+            if d <= 0 or s_ is None:
+                raise
+            c_ = a.c[s_]
+            rest = a - Aff.sym(s_).scale(c_)
+            nq = len([x for x in sub if x.startswith('q')]) + len(out)
+            for r_ in range(u.k):
+                q = Aff.sym(f'q{nq}_{d}')
+                val = (q.scale(u.k) + r_ - rest).scale(1 / c_)
+                sub2 = {n: v.subst({s_: val}) for n, v in sub.items()}
+                sub2[s_] = val
+                nz2 = frozenset(x.subst({s_: val}) for x in nonzero)
+                if not any(x.is_const() and x.k == 0 for x in nz2):
+                    run(sub2, nz2, d - 1)
+            return
         except GeoUndecided as u:
             a = u.aff
             s_ = next((s for s, k in sorted(a.c.items()) if abs(k) == 1), None)
@@ -1283,8 +1351,9 @@ def split_cases(gi: 'GeoInterp', f, inputs, depth: int = 4):
             return
         finally:
             gi.nonzero = set()
-        desc = ', '.join([f'{n} = {v}' for n, v in sorted(sub.items())] +
-                         [f'{x} != 0' for x in sorted(map(str, nonzero))])
+        desc = CaseDesc(', '.join([f'{n} = {v}' for n, v in sorted(sub.items())] +
+                                  [f'{x} != 0' for x in sorted(map(str, nonzero))]))
+        desc.sub = dict(sub)
         out.append((desc, r))
     run({}, frozenset(), depth)
     return out
